@@ -102,6 +102,87 @@ Theorem C16_joint_ok_sound : forall weights redshifts pairs,
 Proof. exact joint_ok_sound. Qed.
 Print Assumptions C16_joint_ok_sound.
 
+(* attribute tables with ARBITRARY content (NaN, +-inf, duplicates, one row; any value type A:
+   rationals, float64 values [fval], bit patterns [Z]): one index vector selects both columns *)
+Theorem C16_joint_draw_any : forall (A : Type) (d : A) (ws zs : list A) idx i, i < length idx ->
+  nth i (draw_attributes_g d ws zs idx) (d, d) = (nth (nth i idx 0) ws d, nth (nth i idx 0) zs d).
+Proof. exact @joint_draw_g. Qed.
+Print Assumptions C16_joint_draw_any.
+
+Theorem C16_joint_draw_rows_any : forall (A : Type) (d : A) (ws zs : list A) idx,
+  length ws = length zs ->
+  Forall (fun j => j < length ws) idx ->
+  forall wz, In wz (draw_attributes_g d ws zs idx) -> In wz (combine ws zs).
+Proof. exact @joint_draw_rows_g. Qed.
+Print Assumptions C16_joint_draw_rows_any.
+
+(* the samples may be prepared before drawing in any way that keeps whole rows (pass-through,
+   row selection, permutation, repetition): every drawn pair is a row of the SUPPLIED samples *)
+Theorem C16_prepared_draw_rows : forall (A : Type) (d : A) (ws zs ws' zs' : list A) idx,
+  length ws' = length zs' ->
+  incl (combine ws' zs') (combine ws zs) ->
+  Forall (fun j => j < length ws') idx ->
+  forall wz, In wz (draw_attributes_g d ws' zs' idx) -> In wz (combine ws zs).
+Proof. exact @prepared_draw_rows. Qed.
+Print Assumptions C16_prepared_draw_rows.
+
+Theorem C16_joint_filter_draw_rows : forall (A : Type) (d : A) (keep : A -> bool) (ws zs : list A) idx,
+  let t := prepare_joint keep ws zs in
+  Forall (fun j => j < length (fst t)) idx ->
+  forall wz, In wz (draw_attributes_g d (fst t) (snd t) idx) -> In wz (combine ws zs).
+Proof. exact @joint_filter_draw_rows. Qed.
+Print Assumptions C16_joint_filter_draw_rows.
+
+(* ... but not when the two columns are compacted separately (non-finite entries dropped per
+   column): the lengths can still agree while a drawn pair is no row of the samples *)
+Theorem C16_indep_filter_refuted :
+  exists (ws zs : list fval) idx wz,
+    length ws = length zs /\
+    let t := prepare_indep fval_finite ws zs in
+    length (fst t) = length (snd t) /\
+    Forall (fun j => j < length (fst t)) idx /\
+    In wz (draw_attributes_g FNaN (fst t) (snd t) idx) /\
+    ~ In wz (combine ws zs) /\
+    joint_ok_g (FFin 0) fval_eqb ws zs [wz] = false.
+Proof. exact indep_filter_refuted. Qed.
+Print Assumptions C16_indep_filter_refuted.
+
+(* which rows are drawn does not depend on the table: the draw over any table is the index
+   twin's output looked up in that table *)
+Theorem C16_draw_via_twin : forall (A : Type) (d : A) (ws zs : list A) m idx,
+  Forall (fun j => j < m) idx ->
+  draw_attributes_g d ws zs idx = map (fun j => (nth j ws d, nth j zs d)) (map fst (twin_attributes m idx)).
+Proof. exact @draw_via_twin. Qed.
+Print Assumptions C16_draw_via_twin.
+
+(* the row checker on float64 values (NaN = NaN, so rows holding NaN count) is sound and complete *)
+Theorem C16_joint_ok_values_sound : forall ws zs pairs,
+  joint_ok_g (FFin 0) fval_eqb ws zs pairs = true ->
+  forall wz, In wz pairs ->
+  exists j, j < length ws /\ j < length zs /\
+            fval_same (fst wz) (nth j ws (FFin 0)) /\ fval_same (snd wz) (nth j zs (FFin 0)).
+Proof.
+  exact (joint_ok_g_sound (FFin 0) fval_eqb fval_same (fun a b => proj1 (fval_eqb_same a b))).
+Qed.
+Print Assumptions C16_joint_ok_values_sound.
+
+Theorem C16_joint_ok_values_complete : forall ws zs idx,
+  length ws = length zs -> Forall (fun j => j < length ws) idx ->
+  joint_ok_g (FFin 0) fval_eqb ws zs (draw_attributes_g (FFin 0) ws zs idx) = true.
+Proof. exact (joint_ok_g_complete (FFin 0) fval_eqb fval_eqb_refl). Qed.
+Print Assumptions C16_joint_ok_values_complete.
+
+Theorem C16_attr_case_zero :
+  forall k nout m ra0 ra1 dec0 dec1 ras decs ws zs wbits zbits twin coords_same pairs pbits repro,
+  c16_attr_case k nout m ra0 ra1 dec0 dec1 ras decs ws zs wbits zbits twin coords_same pairs pbits repro = 0 ->
+  nout = k /\ length pairs = k /\
+  (forall wz, In wz pairs ->
+     exists j, j < length ws /\ j < length zs /\
+               fval_same (fst wz) (nth j ws (FFin 0)) /\ fval_same (snd wz) (nth j zs (FFin 0))) /\
+  repro = true.
+Proof. exact c16_attr_case_zero. Qed.
+Print Assumptions C16_attr_case_zero.
+
 (* footprint (real numbers) *)
 Open Scope R_scope.
 Theorem C16_window_ra : forall ra0 ra1 u, ra0 <= ra1 -> 0 <= u <= 1 -> ra0 <= ra_of ra0 ra1 u <= ra1.
@@ -158,4 +239,20 @@ Example C16_concrete :
   nth 0 (map ch_vecs out) [] = [[100; 101; 102]; [103; 104; 105]; [106; 107; 108]] /\
   draw_attributes [1%Q; 2%Q; 3%Q] [(1#8)%Q; (2#8)%Q; (3#8)%Q] [2; 0; 2]
     = [(3%Q, (3#8)%Q); (1%Q, (1#8)%Q); (3%Q, (3#8)%Q)].
+Proof. vm_compute. repeat split; reflexivity. Qed.
+
+(* non-vacuity of the arbitrary-content part: a table with a NaN weight on row 0 and a NaN redshift
+   on row 2; drawn jointly, the rows holding NaN come out as rows and pass the value checker;
+   with one mask for both columns only row 1 is left; with one mask per column the lengths still
+   agree (2 = 2) and index 0 gives (2, 1/8), which is no row and fails the checker *)
+Example C16_concrete_nonfinite :
+  let ws := [FNaN; FFin 2; FFin 3] in
+  let zs := [FFin (1#8); FFin (2#8); FNaN] in
+  draw_attributes_g (FFin 0) ws zs [0; 2; 1] = [(FNaN, FFin (1#8)); (FFin 3, FNaN); (FFin 2, FFin (2#8))] /\
+  joint_ok_g (FFin 0) fval_eqb ws zs (draw_attributes_g (FFin 0) ws zs [0; 2; 1; 0]) = true /\
+  prepare_joint fval_finite ws zs = ([FFin 2], [FFin (2#8)]) /\
+  prepare_indep fval_finite ws zs = ([FFin 2; FFin 3], [FFin (1#8); FFin (2#8)]) /\
+  draw_attributes_g (FFin 0) [FFin 2; FFin 3] [FFin (1#8); FFin (2#8)] [0] = [(FFin 2, FFin (1#8))] /\
+  joint_ok_g (FFin 0) fval_eqb ws zs [(FFin 2, FFin (1#8))] = false /\
+  twin_attributes 3 [0; 2; 1] = [(0, 0); (2, 2); (1, 1)].
 Proof. vm_compute. repeat split; reflexivity. Qed.
